@@ -60,6 +60,107 @@ mod lowering_cx_boilterplate_tests {
   }
 }
 
+/// Collect every type mentioned by an expression / a function name / a list of statements.
+fn collect_types_in_expression(e: &hir::Expression, collector: &mut Vec<hir::Type>) {
+  if let hir::Expression::Variable(v) = e {
+    collector.push(v.type_.dupe());
+  }
+}
+
+fn collect_types_in_function_name(f: &hir::FunctionNameExpression, collector: &mut Vec<hir::Type>) {
+  // The class part of the name is a type parameter for a method called through its bound.
+  collector
+    .push(hir::Type::Id(hir::IdType { name: f.name.type_name, type_arguments: Arc::from([]) }));
+  collector.extend(f.type_.argument_types.iter().cloned());
+  collector.push(f.type_.return_type.as_ref().dupe());
+  collector.extend(f.type_arguments.iter().cloned());
+}
+
+fn collect_types_in_statements(stmts: &[hir::Statement], collector: &mut Vec<hir::Type>) {
+  for stmt in stmts {
+    match stmt {
+      hir::Statement::Not { name: _, operand } => collect_types_in_expression(operand, collector),
+      hir::Statement::Binary { name: _, operator: _, e1, e2 } => {
+        collect_types_in_expression(e1, collector);
+        collect_types_in_expression(e2, collector);
+      }
+      hir::Statement::IndexedAccess { name: _, type_, pointer_expression, index: _ } => {
+        collector.push(type_.dupe());
+        collect_types_in_expression(pointer_expression, collector);
+      }
+      hir::Statement::Call { callee, arguments, return_type, return_collector: _ } => {
+        match callee {
+          hir::Callee::FunctionName(f) => collect_types_in_function_name(f, collector),
+          hir::Callee::Variable(v) => collector.push(v.type_.dupe()),
+        }
+        for e in arguments {
+          collect_types_in_expression(e, collector);
+        }
+        collector.push(return_type.dupe());
+      }
+      hir::Statement::ConditionalDestructure {
+        test_expr,
+        tag: _,
+        bindings,
+        s1,
+        s2,
+        final_assignments,
+      } => {
+        collect_types_in_expression(test_expr, collector);
+        collector.extend(bindings.iter().flatten().map(|(_, t)| t.dupe()));
+        collect_types_in_statements(s1, collector);
+        collect_types_in_statements(s2, collector);
+        for (_, t, e1, e2) in final_assignments {
+          collector.push(t.dupe());
+          collect_types_in_expression(e1, collector);
+          collect_types_in_expression(e2, collector);
+        }
+      }
+      hir::Statement::IfElse { condition, s1, s2, final_assignments } => {
+        collect_types_in_expression(condition, collector);
+        collect_types_in_statements(s1, collector);
+        collect_types_in_statements(s2, collector);
+        for (_, t, e1, e2) in final_assignments {
+          collector.push(t.dupe());
+          collect_types_in_expression(e1, collector);
+          collect_types_in_expression(e2, collector);
+        }
+      }
+      hir::Statement::LateInitDeclaration { name: _, type_ } => collector.push(type_.dupe()),
+      hir::Statement::LateInitAssignment { name: _, assigned_expression } => {
+        collect_types_in_expression(assigned_expression, collector)
+      }
+      hir::Statement::StructInit { struct_variable_name: _, type_, expression_list } => {
+        collector.push(hir::Type::Id(type_.dupe()));
+        for e in expression_list {
+          collect_types_in_expression(e, collector);
+        }
+      }
+      hir::Statement::EnumInit {
+        enum_variable_name: _,
+        enum_type,
+        tag: _,
+        associated_data_list,
+      } => {
+        collector.push(hir::Type::Id(enum_type.dupe()));
+        for e in associated_data_list {
+          collect_types_in_expression(e, collector);
+        }
+      }
+      hir::Statement::ClosureInit {
+        closure_variable_name: _,
+        closure_type,
+        function_name,
+        context,
+      } => {
+        collector.push(hir::Type::Id(closure_type.dupe()));
+        collect_types_in_function_name(function_name, collector);
+        collect_types_in_expression(context, collector);
+      }
+    }
+  }
+}
+
 struct NextSyntheticFnIdManager {
   id: i32,
 }
@@ -1000,20 +1101,6 @@ impl<'a> ExpressionLoweringManager<'a> {
       &source_fn_type.argument_types,
       &source_fn_type.return_type,
     );
-    // The context object may mention type parameters that do not occur in the lambda's own
-    // signature (e.g. `(d: int) -> int` capturing `k: K`): they are type parameters of the
-    // synthetic function too.
-    let type_parameters = {
-      let mut all: OrderSet<PStr> = type_parameters.into_iter().collect();
-      all.extend(collect_used_generic_types(
-        &hir::FunctionType {
-          argument_types: vec![context_type.dupe()],
-          return_type: Box::new(hir::INT_TYPE),
-        },
-        &self.type_lowering_manager.generic_types,
-      ));
-      all.into_iter().sorted().collect_vec()
-    };
     let fn_name = self.allocate_synthetic_fn_name();
     let mut manager = ExpressionLoweringManager::new(
       self.module_reference,
@@ -1045,6 +1132,23 @@ impl<'a> ExpressionLoweringManager<'a> {
     } = lower_source_expression(manager, &expression.body);
     lambda_stmts.append(&mut lowered_s);
     self.synthetic_functions.append(&mut synthetic_functions);
+    // The context object and the body may mention type parameters that do not occur in the
+    // lambda's own signature (e.g. `(d: int) -> int` capturing `k: K`, or `() -> Box.make<T>().size()`):
+    // they are type parameters of the synthetic function too.
+    let type_parameters = {
+      let mut mentioned_types = vec![context_type.dupe()];
+      collect_types_in_statements(&lambda_stmts, &mut mentioned_types);
+      collect_types_in_expression(&lowered_e, &mut mentioned_types);
+      let mut all: OrderSet<PStr> = type_parameters.into_iter().collect();
+      all.extend(collect_used_generic_types(
+        &hir::FunctionType {
+          argument_types: mentioned_types,
+          return_type: Box::new(hir::INT_TYPE),
+        },
+        &self.type_lowering_manager.generic_types,
+      ));
+      all.into_iter().sorted().collect_vec()
+    };
 
     hir::Function {
       name: fn_name,
